@@ -290,7 +290,7 @@ func (h *HttpServer) handleStreamInit(w http.ResponseWriter, r *http.Request) {
 		handlerErr = err
 		if err == nil && !finished {
 			// Batch limit reached — append continuation token
-			token, tokenErr := h.packCursorToken(callID, state, auth)
+			token, tokenErr := h.packCursorTokenFor(callID, method, state, auth)
 			callToken, callErr := h.packCallToken(callID, outputSchema, auth, streamID)
 			if tokenErr != nil {
 				handlerErr = tokenErr
@@ -309,7 +309,7 @@ func (h *HttpServer) handleStreamInit(w http.ResponseWriter, r *http.Request) {
 		}
 	} else {
 		// Exchange init — return state token (carry schema for dynamic methods)
-		token, err := h.packCursorToken(callID, state, auth)
+		token, err := h.packCursorTokenFor(callID, method, state, auth)
 		if err != nil {
 			h.writeHttpError(w, http.StatusInternalServerError, err, nil)
 			return
@@ -486,6 +486,14 @@ func (h *HttpServer) handleStreamExchange(w http.ResponseWriter, r *http.Request
 		h.writeHttpError(w, http.StatusBadRequest, err, nil)
 		return
 	}
+	// A cursor resumes only the method that minted it. The state it carries
+	// was built by that method's handler; running another method's route on
+	// it would execute foreign state under the wrong name and schemas.
+	if tokenData.Method != method {
+		h.writeHttpError(w, http.StatusBadRequest,
+			&RpcError{Type: "RuntimeError", Message: "Malformed state token"}, nil)
+		return
+	}
 	call, err := h.resolveCall(tokenData, callTokenBytes, auth)
 	if err != nil {
 		h.writeHttpError(w, http.StatusBadRequest, err, nil)
@@ -553,6 +561,19 @@ func (h *HttpServer) handleStreamExchange(w http.ResponseWriter, r *http.Request
 		}
 	} else {
 		isProducer = info.Type == MethodProducer
+	}
+	// The state kind must fit the route before anything is dispatched on it;
+	// an unchecked assertion below would panic out of ServeHTTP.
+	stateFits := false
+	if isProducer {
+		_, stateFits = tokenData.State.(ProducerState)
+	} else {
+		_, stateFits = tokenData.State.(ExchangeState)
+	}
+	if !stateFits {
+		handlerErr = &RpcError{Type: "RuntimeError", Message: "Malformed state token"}
+		h.writeHttpError(w, http.StatusBadRequest, handlerErr, nil)
+		return
 	}
 
 	// For dynamic methods, OutputSchema is not set at registration time —
@@ -639,7 +660,7 @@ func (h *HttpServer) handleProducerContinuation(ctx context.Context, w http.Resp
 	finished, err := h.runProduceLoop(ctx, writer, schema, state, info, stats, auth, transportMeta, cookies, sink, stripFrameworkTickMetadata(requestMeta))
 	if err == nil && !finished {
 		// Batch limit reached — append continuation token
-		token, tokenErr := h.packCursorToken(callID, state, auth)
+		token, tokenErr := h.packCursorTokenFor(callID, info.Name, state, auth)
 		if tokenErr != nil {
 			err = tokenErr
 		} else if werr := writeStateTokenBatch(writer, schema, token, nil); werr != nil {
@@ -721,7 +742,7 @@ func (h *HttpServer) handleExchangeCall(ctx context.Context, w http.ResponseWrit
 	}
 
 	// Serialize updated state into new token (carry schema for dynamic methods)
-	newToken, err := h.packCursorToken(callID, state, auth)
+	newToken, err := h.packCursorTokenFor(callID, info.Name, state, auth)
 	if err != nil {
 		out.releaseBatches()
 		h.logIPCWriteErr("error-batch", info.Name, writeErrorBatch(writer, schema, err, h.server.serverID, "", h.server.debugErrors))
